@@ -531,6 +531,9 @@ func init() {
 			}
 			for _, f := range files {
 				for _, rd := range rds {
+					if f.cfg&1 == 0 && rd >= 3 {
+						continue // an unchunked file has no index: time-ordered reads are refused by design
+					}
 					if f.cfg&4 != 0 && rd != 0 {
 						continue // the Reader API offers no way to pass a custom decompressor
 					}
